@@ -245,7 +245,7 @@ def _job(arg):
 
 def run(chk):
     quick = chk.tier == "quick"
-    scopes = [dict(G=4 if quick else 5, NH=3, Kind="findpeaks"), dict(G=5 if quick else 6, NH=3 if quick else 4, Kind="merge"),
+    scopes = [dict(G=4 if quick else 5, NH=3, Kind="findpeaks"), dict(G=5 if quick else 7, NH=3, Kind="merge"),
               dict(G=0, NH=5 if quick else 7, Kind="sma"), dict(G=0, NH=5 if quick else 6, Kind="iof"),
               dict(G=0, NH=5 if quick else 7, Kind="split"), dict(G=0, NH=4 if quick else 5, Kind="sumwf"),
               dict(G=0, NH=5 if quick else 6, Kind="widths"), dict(G=0, NH=5 if quick else 6, Kind="hdr")]
